@@ -14,7 +14,7 @@ import (
 func init() {
 	register("C09", &propDef{
 		Level:   "other",
-		Explain: "Table clauses exhaustive over all ~740 listed ids, code clauses by provenance: K0a no two ids are equal under the case folding strings.EqualFold implements, K0b no id has a case variant that starts with a keyword the scanner matches (case-sensitively) before ids, K1 the list lookup compares with EqualFold and returns the list's own spelling, K2 only list spelling reaches license/exception tokens and node fields, K3 every later comparison of license or exception text is between canonical strings (node fields, their canonical rendering, range-table constants), K4 output is built from those fields (C06 E3). Operators, reference prefixes and the -only/-or-later suffixes are matched exactly by construction and are outside the claim.",
+		Explain: "Table clauses exhaustive over all ~740 listed ids, code clauses by provenance: K0a no two ids are equal under the case folding strings.EqualFold implements, K0b no id has a case variant that starts with a keyword the scanner matches (case-sensitively) before ids, K0c the id reader's pattern or byte class admits every listed id whole in upper and in lower case, K1 the list lookup compares with EqualFold and returns the list's own spelling, K2 only list spelling reaches license/exception tokens and node fields, K3 every later comparison of license or exception text is between canonical strings (node fields, their canonical rendering, range-table constants), K4 output is built from those fields (C06 E3). Operators, reference prefixes and the -only/-or-later suffixes are matched exactly by construction and are outside the claim.",
 		Run:     rulesC09,
 		Trusted: []string{"go/ssa lowering", "strings.EqualFold implements Unicode simple case folding (the checker uses the same function on constants)"},
 	})
